@@ -246,7 +246,8 @@ def _assert_calls(p, f):
                 continue
         if isinstance(n, ast.Assign) and isinstance(n.value, ast.Call) and len(n.targets) == 1 and isinstance(n.targets[0], ast.Name):
             ch = attr_chain(n.value.func)
-            if ch and ch[-1] in ("assert_", "cast") and n.value.args and isinstance(n.value.args[0], ast.Name) and n.value.args[0].id == n.targets[0].id:
+            # the cast ends the pipeline of the checked variable: its result may get another name (`out = cast(v, ..)`)
+            if ch and ch[-1] in ("assert_", "cast") and n.value.args and isinstance(n.value.args[0], ast.Name) and (n.value.args[0].id == n.targets[0].id or ch[-1] == "cast"):
                 kind = ch[-1]
                 what = None
                 if kind == "assert_" and len(n.value.args) >= 2:
@@ -263,7 +264,7 @@ def _assert_calls(p, f):
                         what = "shape"
                     elif "len(" in cond:
                         what = "arity"
-                out.append((n, n.targets[0].id, kind, what))
+                out.append((n, n.value.args[0].id, kind, what))
     return out
 
 
@@ -301,8 +302,13 @@ def checked_before_trusted(p, rep, rid, f, require_type_guard=None, optional=Fal
                     extra = [(norm(t), pol) for t, pol in cfg.guards(anode) if (norm(t), pol) not in [(norm(t2), p2) for t2, p2 in cfg.guards(cnode)]]
                     # ... that is, on the very type the assert would compare with: `if T is not None: assert_(v, isinstance(v, T))`
                     tnames = {y.id for y in ast.walk(a.value) if isinstance(y, ast.Name)} - {var}
-                    if len(extra) == 1 and extra[0][1] and extra[0][0].endswith(" is not None") and extra[0][0][: -len(" is not None")] in tnames and cfg.can_reach(anode, cnode):
-                        ok, why = True, f"type assert skipped only when the expected type `{extra[0][0][: -len(' is not None')]}` is None"
+                    gnames = [t_[: -len(" is not None")] for t_, pol_ in extra if pol_ and t_.endswith(" is not None")]
+                    copies = {(norm(x.targets[0]), norm(x.value)) for x in walk_no_nested(f.node) if isinstance(x, ast.Assign) and len(x.targets) == 1 and isinstance(x.targets[0], ast.Name) and isinstance(x.value, ast.Name)}
+                    main = [g_ for g_ in gnames if g_ in tnames]
+                    # one fact, or the same fact once more under the name the value had before a plain copy (`T = T0`)
+                    same = bool(main) and all(g_ == main[0] or (main[0], g_) in copies or (g_, main[0]) in copies for g_ in gnames)
+                    if extra and len(gnames) == len(extra) and same and cfg.can_reach(anode, cnode):
+                        ok, why = True, f"type assert skipped only when the expected type `{main[0]}` is None"
                         break
                     why = f"type assert is conditional on {extra}"
             rep.add(rid, f"{f.qualname}:{var}:{need}-checked-before-cast", site, ok, why)
@@ -314,8 +320,10 @@ def checked_before_trusted(p, rep, rid, f, require_type_guard=None, optional=Fal
 
 def r3(p, rep):
     rep.rule("C13.R3", "factory output is checked before it is trusted", "T-MPT (dominators on the value pipeline)", floor=3)
-    f = p.func("_assert_output", "adapter.namedtensor_calltensorfactory")
-    checked_before_trusted(p, rep, "C13.R3", f)
+    f = common.inlined_view(p, p.func("_assert_output", "adapter.namedtensor_calltensorfactory"), "einx._src.adapter")
+    # the type check may be written `if T is not None: assert_(..)` (a shared helper with an optional type): it is
+    # skipped only when T - here always the factory's expected type - is None
+    checked_before_trusted(p, rep, "C13.R3", f, require_type_guard="expected_type")
     # the checks happen exactly when the factory was called
     cfg = CFG(f.node)
     for n, v, kind, what in _assert_calls(p, f):
